@@ -517,9 +517,9 @@ def one(ctx, item):
 def run(ctx):
     import check
     q = ctx.quick
-    items = [('sc', i) for i in range(160 if q else 1600)]
+    items = [('sc', i) for i in range(160 if q else 1000)]
     if not q:
-        items += [('recover', i) for i in range(60)]
+        items += [('recover', i) for i in range(40)]
     ctx.rng.shuffle(items)
     check.pmap(ctx, 'props.c19', 'one', items, case_timeout=300 if q else 900)
 
